@@ -16,7 +16,7 @@ func init() { register("C15", checkC15) }
 const pkgEsWriter = "pkg/es/writer"
 
 func checkC15(c *core.Ctx, r *core.Report) {
-	r.Explanation = "[POOL — an event object taken from writer.plePool carries no field value of its previous use when it is handed out: reset-on-get (Reset after Get and every other field assigned unconditionally) or reset-on-put (every Put preceded by Reset)] C15 (bulk ingest acknowledges exactly what it stored), loop discipline and error flow of HandleBulkBody only: " +
+	r.Explanation = "[OWN — no map update is made through a value that may alias the process-wide created-item template that every successful response slot shares] [OWN — the map-building slice helpers of pkg/utils (ConvertSliceToMap builds the per-index batches of a bulk request) never append to a slice that may share their input's backing array] [POOL — an event object taken from writer.plePool carries no field value of its previous use when it is handed out: reset-on-get (Reset after Get and every other field assigned unconditionally) or reset-on-put (every Put preceded by Reset)] C15 (bulk ingest acknowledges exactly what it stored), loop discipline and error flow of HandleBulkBody only: " +
 		"(1) LIVE — no value that decides an item's status (the conditions controlling which response item is stored) is carried over unchanged from the previous loop iteration (no sticky flags); " +
 		"(2) one response item per action — every trip around the action loop stores an element of the items slice; once an action is counted its slot is written before the loop goes on or ends; every item store goes into a slot derived from the per-action counter (directly or remembered per event in a local map); " +
 		"(3) every branch that stores a failure item makes the `errors` flag true; " +
@@ -26,6 +26,8 @@ func checkC15(c *core.Ctx, r *core.Report) {
 	r.NotCovered = "that a 201 item is searchable exactly once, per-line JSON validity, trailing-newline handling, the item/batch bookkeeping needed to attribute a store failure to individual items"
 
 	checkPooledEvent(c, r)
+	checkInputNotClobbered(c, r)
+	checkSharedItemTemplate(c, r)
 
 	fn := c.Fn(pkgEsWriter, "HandleBulkBody")
 	name := shortFn(fn)
